@@ -126,6 +126,15 @@ class LogicalStore(ValueStore):
         return f"LogicalStore({self.idx})"
 
 
+class FalsyLogicalStore(LogicalStore):
+    """A user-defined store that happens to be falsy while it is empty (it defines __len__)."""
+
+    __slots__ = ()
+
+    def __len__(self):
+        return 0 if self.value is Missing else 1
+
+
 class AliasStore(ValueStore):
     """A second store object over the same underlying storage as `target` (like two FileStores with
     one path); operations are logged under its own index."""
@@ -209,11 +218,25 @@ class World:
         self.gather_count = 0
         self.shared = {}
         late = []
+        # "hoist": argument-less nodes (sources, literals) created up-front in the given order, i.e. BEFORE nodes
+        # they depend on: the plan's node insertion order is then not a topological order (add_dependency may
+        # legally point from a newer node to an older one)
+        hoisted = {}
+        for i in spec.get("hoist", []):
+            nd = spec["nodes"][i]
+            with plan.scope(*nd.get("scope", [])):
+                if nd["k"] == "lit":
+                    hoisted[i] = plan.lit(specs_const(nd["v"]))
+                elif nd["k"] == "src" and not nd.get("alias") and not nd.get("foreign"):
+                    self.stores[i] = self.new_store(i)
+                    hoisted[i] = self.registry.source(plan, self.stores[i])
         for i, nd in enumerate(spec["nodes"]):
             k = nd["k"]
             self._call_slots = set()
             with plan.scope(*nd.get("scope", [])):
-                if k == "call":
+                if i in hoisted:
+                    node = hoisted[i]
+                elif k == "call":
                     fn = self._make_fn(i, nd)
                     self.fns[i] = fn
                     args, argrefs = [], []
@@ -279,6 +302,8 @@ class World:
                 self.index_of.setdefault(n, i)
 
     def new_store(self, i):
+        if i < len(self.spec["nodes"]) and self.spec["nodes"][i].get("falsy"):
+            return FalsyLogicalStore(self, i, self.normalising)
         return LogicalStore(self, i, self.normalising)
 
     def node_of(self, ref):
